@@ -34,6 +34,28 @@ def _guess_ttl(mech, cfg, rel):
     return c
 
 
+def gen_chain(rng, rel, cfg):
+    """remaining lifetimes of the further x5c elements of a JWK (issuing CAs, nearest first; chain length 1..3 in
+    total), chosen independently of the key's own certificate: later / earlier than it, inside / outside the leeway,
+    around the configured TTL, occasionally already expired"""
+    n = rng.choices([0, 1, 2], [4, 3, 3])[0]
+    ttl = cfg if cfg is not None and cfg > 0 else 600
+    out = []
+    for _ in range(n):
+        r = rng.random()
+        if r < 0.35:
+            out.append(rng.choice([9000, 90000, 900000]))                       # long living CA
+        elif r < 0.55:
+            out.append(rel + rng.choice([-20, -11, -10, -1, 0, 1, 10, 11, 20]))   # around the own certificate
+        elif r < 0.75:
+            out.append(ttl + 10 + rng.choice([-1, 0, 1, 50]))                     # around now + TTL (+ leeway)
+        elif r < 0.9:
+            out.append(rng.choice([1, 5, 9, 10, 11, 12, 15, 30]))                 # inside / just outside the leeway
+        else:
+            out.append(rng.choice([-3000, -5, -1, 0]))                            # an expired CA: key must be refused
+    return out
+
+
 def gen_mech_case(rng, mech=None):
     mech = mech or rng.choices(MECHS, MECH_WEIGHTS)[0]
     store = rng.choices(["virtual", "redis", "memory"], [6, 3, 1])[0]
@@ -91,6 +113,10 @@ def gen_mech_case(rng, mech=None):
             if mech == "clientcreds" and rel == 0:
                 rel = None        # `expires_in: 0` is "no expiry information" for the token endpoint client
             step["exp"] = rel
+            if mech == "jwtkey" and rel is not None:
+                chain = gen_chain(rng, rel, cfg)
+                if chain:
+                    step["chain"] = chain
             last[key] = (now, _guess_ttl(mech, cfg, rel), rel)
         else:
             last[key] = (now, _guess_ttl(mech, cfg, None), None)
@@ -209,4 +235,10 @@ def grid_cases():
                             s1["exp"] = 500
                         c["steps"] = [s0, s1]
                         cases.append(c)
+                        if mech == "jwtkey" and rel is not None and rel > 0:
+                            # the same with x5c chains whose CAs outlive / do not outlive the key's own certificate
+                            for chain in ([90000], [90000, 900000], [rel + 11, 90000], [max(rel - 1, 1)],
+                                          [12, 90000]):
+                                cc = dict(c, steps=[dict(s0, chain=chain), dict(s1, chain=[90000])])
+                                cases.append(cc)
     return cases
